@@ -8,7 +8,7 @@ var schedStub = []string{"executor and checkpointer: recorders with generated du
 func init() {
 	reg(&checkSpec{
 		ID: "C24", Harness: "sched", Inst: []string{"task/backend/scheduler", "task/backend/coordinator"}, Level: "exploration",
-		Classes: []string{"C24:", "busy-wait", "deadlock"},
+		Classes: []string{"C24:", "busy-wait:nothing-due", "deadlock"},
 		Cfgs: []cfgSpec{
 			{Name: "fast", Cfg: "fast", Gating: true, Share: 2},
 			{Name: "calm", Cfg: "calm,fast", Gating: true, Share: 2},
@@ -22,7 +22,7 @@ func init() {
 		Real:   schedReal, Stub: schedStub,
 		Assumptions: []string{
 			"a run belongs to the Schedule call whose successive Next() values it continues; after a re-Schedule returned, one run of the replaced schedule (the one already handed to a worker) may still start",
-			"quiescent point = the main goroutine has just slept on the virtual clock and is not on the grid of due times, so every other goroutine is blocked; When() and 'due run with idle worker has started (bound 2 s)' are judged only there",
+			"quiescent point = the main goroutine has just slept on the virtual clock and is not on the grid of due times, so every other goroutine is blocked; When() and 'due run with idle worker has started (bound 2 s)' are judged only there; a When() mismatch is confirmed one virtual millisecond later before it is reported",
 			"configuration calm: a task due every second is always scheduled and operations that release or re-schedule a task whose pending run is already due are skipped, so that the known spin after removing the earliest item does not mask the other oracles; executor durations are 0 there",
 			"configuration fast: every operation allowed, executor durations 0; configuration slow: every operation allowed, executor durations 0, 0.3, 1, 1.5, 3 periods",
 		},
@@ -39,8 +39,8 @@ func init() {
 			"coordinator.Coordinator and the real TreeScheduler, followed by 65 simulated seconds; non-trivial = at least 3 operations, one executor invocation, one context switch; " +
 			"distinct = distinct hash of (operations, context-switch sequence)",
 		Probes: []string{"create_inactive", "create_active", "update_schedule", "delete", "restart", "update_active_to_inactive", "update_inactive_to_active"},
-		Real: append([]string{"task/backend/coordinator.Coordinator (instrumented)", "task/backend/middleware.CoordinatingTaskService", "task/backend.NotifyCoordinatorOfExisting, backend.SchedulableTaskService"}, schedReal...),
-		Stub: append([]string{"task store: in-memory map implementing the used part of taskmodel.TaskService (FindTasks pages by 2)", "coordinator executor (manual runs): unused stub"}, schedStub...),
+		Real:   append([]string{"task/backend/coordinator.Coordinator (instrumented)", "task/backend/middleware.CoordinatingTaskService", "task/backend.NotifyCoordinatorOfExisting, backend.SchedulableTaskService"}, schedReal...),
+		Stub:   append([]string{"task store: in-memory map implementing the used part of taskmodel.TaskService (FindTasks pages by 2)", "coordinator executor (manual runs): unused stub"}, schedStub...),
 		Assumptions: []string{
 			"expected schedule of a task = coordinator.NewSchedulableTask(latest stored version): successive Next() values after its LastScheduled",
 			"configuration with-sentinel: a harness task due every second keeps the scheduler's timer from firing with nothing due (known spin, C24), so that the history can be run to its end",
